@@ -142,6 +142,11 @@ impl<P: MNT6Config> MNT6<P> {
 
         let mut f = <Fp6<P::Fp6Config>>::one();
 
+        // `q` was prepared from the point at infinity: e(P, O) = 1.
+        if q.double_coefficients.is_empty() {
+            return f;
+        }
+
         let mut add_idx: usize = 0;
 
         // code below gets executed for all bits (EXCEPT the MSB itself) of
